@@ -285,6 +285,8 @@ def table_digest(name):
             return ['dict'] + sorted(([repr(k), canon(v)] for k, v in x.items()), key=lambda kv: kv[0])
         if isinstance(x, (list, tuple)):
             return [canon(i) for i in x]
+        if isinstance(x, (int, float)) and not isinstance(x, bool):
+            return repr(float(x))          # 8 and 8.0 are the same table entry
         return repr(x)
     return hashlib.sha256(json.dumps(canon(data)).encode()).hexdigest()
 
